@@ -16,7 +16,7 @@
                                                window_sum within L
      has_auth auths a                          the account's authorisation is attached to the call *)
 From SC Require Import Lib.Prelude Lib.Int Lib.Host Model.Policies Model.PoliciesSpec
-  Proofs.Policies Proofs.PoliciesSpend Proofs.PoliciesInv Proofs.PoliciesExact Proofs.C14Final Proofs.PoliciesWindows Run.C14 Proofs.C14Monitor.
+  Proofs.Policies Proofs.PoliciesSpend Proofs.PoliciesInv Proofs.PoliciesExact Proofs.C14Final Proofs.PoliciesWindows Run.C14 Proofs.C14Monitor Proofs.C14Classes.
 From Coq Require Import Sorting.Sorted.
 
 (* ---- simple threshold: accepts exactly when the number of authenticated signers reaches the
@@ -269,6 +269,95 @@ Theorem C14_monitor_accepts_model : forall (h : hdr) (cs : list call),
 Proof. exact check_accepts_model. Qed.
 Print Assumptions C14_monitor_accepts_model.
 
+
+(* ======== hardening round (situation classes K1..K6) ======== *)
+
+(* ---- K1 / K5: no address is special.  For every injective renaming f of the addresses (e.g. the swap of an
+   ordinary account with the policy contract's own address, with another registered contract, with the account
+   that is also the token called ...) a call on the renamed state with the renamed authorisation set and the
+   renamed account has the renamed result: same outcome, same events, same getter values.  So the only thing
+   about an address that matters is whether its authorisation is attached. ---- *)
+Theorem C14_no_special_address : forall (f : addr -> addr), (forall a b, f a = f b -> a = b) ->
+  forall c s cl,
+  step c (rstate f s) (rcall f cl) = let '(s', o, evs) := step c s cl in (rstate f s', o, map (revent f) evs).
+Proof. exact step_rename. Qed.
+Print Assumptions C14_no_special_address.
+
+Theorem C14_no_special_address_run : forall (f : addr -> addr), (forall a b, f a = f b -> a = b) ->
+  forall c cs s (u : universe) evs,
+  run c (rstate f s) (map (rcall f) cs) = rstate f (run c s cs) /\
+  observe {| u_keys := map (rk f) (u_keys u); u_sgs := u_sgs u |} (rstate f s) (map (revent f) evs) =
+    let o := observe u s evs in {| o_s := o_s o; o_w := o_w o; o_l := o_l o; o_ev := map (revent f) (o_ev o) |}.
+Proof. exact no_special_address_run. Qed.
+Print Assumptions C14_no_special_address_run.
+
+(* ---- K1 / K5 / K2: a context matters only through the amount the spending policy extracts from it: the token
+   contract called (the account itself, the policy itself, any other contract), from, to (plain, muxed, equal to
+   each other, equal to the account), additional arguments and the name of a non-transfer function play no role;
+   the threshold policies do not look at the context at all ---- *)
+Theorem C14_context_parties_irrelevant : forall c s p au a r sgs,
+  (forall ctxs ctxs', map transfer_amount ctxs = map transfer_amount ctxs' ->
+     step c s (Enforce p au a r ctxs sgs) = step c s (Enforce p au a r ctxs' sgs)) /\
+  (forall ctx ctx', transfer_amount ctx = transfer_amount ctx' ->
+     step c s (CanEnforce p a r ctx sgs) = step c s (CanEnforce p a r ctx' sgs)) /\
+  (p <> PL -> forall ctx ctx', step c s (CanEnforce p a r ctx sgs) = step c s (CanEnforce p a r ctx' sgs) /\
+                               step c s (Enforce p au a r [ctx] sgs) = step c s (Enforce p au a r [ctx'] sgs)).
+Proof. exact context_parties_irrelevant. Qed.
+Print Assumptions C14_context_parties_irrelevant.
+
+(* ---- K6: uninstall forgets.  Whatever is stored for (account, rule) - a full history, a lowered limit, nothing -
+   an authorised uninstall followed by an authorised install with valid parameters yields exactly the entry of a
+   first installation (empty history, zero cache) and touches nothing else; uninstall is idempotent and leaves
+   can_enforce = false ---- *)
+Theorem C14_reinstall_is_fresh : forall c s au a r l p,
+  has_auth au a = true -> 0 < l <= MAX128 -> 0 < p <= MAXU32 ->
+  exists s1 s2,
+    step c s (Uninstall PL au a r) = (s1, Ok RUnit, []) /\
+    kget (a, r) (st_spend s1) = None /\
+    step c s1 (LInstall au a r l p) = (s2, Ok RUnit, []) /\
+    kget (a, r) (st_spend s2) = Some {| sd_limit := l; sd_period := p; sd_hist := []; sd_cached := 0 |} /\
+    (forall k, k <> (a, r) -> kget k (st_spend s2) = kget k (st_spend s)) /\
+    st_simple s2 = st_simple s /\ st_weighted s2 = st_weighted s /\ now s2 = now s.
+Proof. exact reinstall_is_fresh. Qed.
+Print Assumptions C14_reinstall_is_fresh.
+
+Theorem C14_uninstall_forgets : forall c s p au a r,
+  has_auth au a = true ->
+  exists s1, step c s (Uninstall p au a r) = (s1, Ok RUnit, []) /\
+    match p with
+    | PS => kget (a, r) (st_simple s1) = None
+    | PW => kget (a, r) (st_weighted s1) = None
+    | PL => kget (a, r) (st_spend s1) = None
+    end /\
+    snd (fst (step c s1 (CanEnforce p a r CCreate []))) = Ok (RBool false) /\
+    exists s2, step c s1 (Uninstall p au a r) = (s2, Ok RUnit, []).
+Proof. exact uninstall_forgets. Qed.
+Print Assumptions C14_uninstall_forgets.
+
+(* ---- K3 / K6: the sibling path.  set_threshold of the simple policy needs no installation and creates the
+   entry; a later install (any authorisation, any parameters) finds it and is refused ---- *)
+Theorem C14_set_threshold_then_install_refused : forall c s au a r rs t s1 o evs,
+  step c s (SSetThreshold au a r rs t) = (s1, Ok o, evs) ->
+  kget (a, r) (st_simple s1) = Some t /\
+  forall au' rs' t', snd (fst (step c s1 (SInstall au' a r rs' t'))) = Fail.
+Proof. exact set_threshold_then_install_refused. Qed.
+Print Assumptions C14_set_threshold_then_install_refused.
+
+(* ---- K5: old = new.  A successful set_threshold / set_signer_weight / set_spending_limit that writes the value
+   already stored changes no getter value, emits nothing and does not touch the ledger ---- *)
+Theorem C14_same_value_rewrite_changes_nothing : forall c u s cl s' o evs,
+  step c s cl = (s', Ok o, evs) ->
+  match cl with
+  | SSetThreshold _ a r _ t => kget (a, r) (st_simple s) = Some t
+  | WSetThreshold _ a r t => option_map wd_thr (kget (a, r) (st_weighted s)) = Some t
+  | WSetWeight _ a r sg w => match kget (a, r) (st_weighted s) with Some d => alist_get sg (wd_weights d) = Some w | None => False end
+  | LSetLimit _ a r l => option_map sd_limit (kget (a, r) (st_spend s)) = Some l
+  | _ => False
+  end ->
+  observe u s' [] = observe u s [] /\ evs = [] /\ now s' = now s.
+Proof. exact same_value_rewrite_changes_nothing. Qed.
+Print Assumptions C14_same_value_rewrite_changes_nothing.
+
 (* ---------- non-vacuity ---------- *)
 Module NonVacuity.
   Definition c0 : cfg := {| max_history := 1000 |}.
@@ -345,4 +434,37 @@ Module NonVacuity.
   Example wf_instance :
     forallb (wf_call (hdr_u (mkhdr 1000 5 [(1%N, 1%N)] [0%N; 1%N; 2%N]))) pre = true.
   Proof. vm_compute. reflexivity. Qed.
+  (* K1: swapping an ordinary account (1) with the address of the policy contract itself (say 6): the run on
+     the swapped calls is the swapped run - the policy's own address used as the account is an account like any
+     other, and nothing can be stored for it without its authorisation *)
+  Example swap_is_injective : forall a b, swap_addr 1%N 6%N a = swap_addr 1%N 6%N b -> a = b.
+  Proof. exact (swap_addr_inj 1%N 6%N). Qed.
+  Example swapped_run :
+    option_map gi_log (kget (6%N, 1%N) (snd (run_log c0 (init 5) [] (map (rcall (swap_addr 1%N 6%N)) pre)))) = Some [(60, 5)] /\
+    kget (1%N, 1%N) (st_spend (run c0 (init 5) (map (rcall (swap_addr 1%N 6%N)) pre))) = None /\
+    snd (fst (step c0 (init 5) (LInstall [] 6%N 1%N 100 10))) = Fail /\
+    snd (fst (step c0 (init 5) (SSetThreshold [1%N; 0%N] 6%N 1%N [0%N] 1))) = Fail.
+  Proof. vm_compute. repeat split. Qed.
+  (* K1/K5: the token called is the account itself, extra arguments: same decision, same state *)
+  Example parties_instance :
+    let s := fst (run_log c0 (init 5) [] pre) in
+    step c0 s (Enforce PL [1%N] 1%N 1%N [CContract 4%N 0%N [AOther; AOther; AI128 40; AOther]] [0%N]) =
+    step c0 s (Enforce PL [1%N] 1%N 1%N [tr 40] [0%N]) /\
+    is_ok (snd (fst (step c0 s (Enforce PL [1%N] 1%N 1%N [CContract 3%N 0%N [AOther; AOther; AI128 41]] [0%N])))) = false.
+  Proof. vm_compute. repeat split. Qed.
+  (* K6: a full window, uninstall, install: the whole limit is available again (the log is per installation) *)
+  Example reinstall_instance :
+    let s := fst (run_log c0 (init 5) [] (pre ++ [Enforce PL [1%N] 1%N 1%N [tr 40] [0%N]])) in
+    is_ok (snd (fst (step c0 s (Enforce PL [1%N] 1%N 1%N [tr 1] [0%N])))) = false /\
+    let s2 := run c0 s [Uninstall PL [1%N] 1%N 1%N; LInstall [1%N] 1%N 1%N 100 10] in
+    kget (1%N, 1%N) (st_spend s2) = Some {| sd_limit := 100; sd_period := 10; sd_hist := []; sd_cached := 0 |} /\
+    is_ok (snd (fst (step c0 s2 (Enforce PL [1%N] 1%N 1%N [tr 100] [0%N])))) = true.
+  Proof. vm_compute. repeat split. Qed.
+  (* K5: set_threshold 2 over a stored 2 *)
+  Example same_value_instance :
+    let s := run c0 (init 5) pre in
+    snd (fst (step c0 s (SSetThreshold [1%N] 1%N 1%N [0%N; 1%N] 2))) = Ok RUnit /\
+    kget (1%N, 1%N) (st_simple s) = Some 2.
+  Proof. vm_compute. repeat split. Qed.
 End NonVacuity.
+
